@@ -335,7 +335,26 @@ def op_np_printoptions(self, rec):
 
 World.op_np_printoptions = op_np_printoptions
 
+def op_py_warnings(self, rec):
+    """The application changes its warnings filters (process-global: -W ignore, warnings.simplefilter in a start-up
+    module, a library that silences RuntimeWarnings).  state None: warnings.resetwarnings().  Never "error": what a
+    seeded call returns - when it returns - must not depend on them."""
+    import builtins
+    import warnings
+    st = rec.get("state")
+    if not st:
+        warnings.resetwarnings()
+    else:
+        warnings.filterwarnings(st["action"], category=getattr(builtins, st.get("category", "Warning")))
+    self.faults["caller.warnings_filters"] += 1
+    self.probes["caller.changed_warnings_filters"] += 1
+    return "ok:-"
+
+
+World.op_py_warnings = op_py_warnings
+
 SHARED_OPS = {
+    "py.warnings": World.op_py_warnings,
     "py.import": World.op_py_import,
     "np.seterr": World.op_np_seterr,
     "np.printoptions": World.op_np_printoptions,
